@@ -408,9 +408,18 @@ def tzstr (s : String) (posix : Bool) : Py.R Zone := do
 
 /-! ### `tzrange.transitions(year)`: `datetime(year, 1, 1) + delta`, in seconds since ordinal 0 -/
 
-/-- `datetime(year,1,1) + relativedelta(month, day, weekday, leapdays, seconds…)` as
-    (seconds since 0001-01-01T00:00 minus one day), mirroring `relativedelta.__add__` -/
-def applyDelta (year : Int) (d : Delta) : Py.R Int := do
+/-- the weekday step of `relativedelta.__add__`: days to jump from a day whose weekday is `cur`
+    to the `n`-th weekday `wd` on/after (n > 0) or on/before (n < 0); `n = 0` counts as 1 -/
+def weekdayJump (cur wd n : Int) : Int :=
+  let nth := if n != 0 then n else 1
+  if nth > 0 then (Py.iabs nth - 1) * 7 + (7 - cur + wd) % 7
+  else -((Py.iabs nth - 1) * 7 + (cur - wd) % 7)
+
+def inRange (t : Int) : Bool := decide (86400 ≤ t ∧ t < (Cal.maxOrdinal + 1) * 86400)
+
+/-- steps 1–3 of `relativedelta.__add__` on `datetime(year, 1, 1)`: replace month/day (clipped),
+    add leapdays and the duration; seconds since ordinal 0 -/
+def baseInstant (year : Int) (d : Delta) : Py.R Int :=
   if year < 1 ∨ year > 9999 then .error .ValueError else
   let month := match d.month with | some m => if m != 0 then m else 1 | none => 1
   if month < 1 ∨ month > 12 then .error .ValueError else     -- calendar.monthrange → IllegalMonthError
@@ -419,16 +428,21 @@ def applyDelta (year : Int) (d : Delta) : Py.R Int := do
   if day < 1 then .error .ValueError else                     -- other.replace(day=…) rejects it
   let days := if d.leapdays != 0 && month > 2 && Cal.isLeap year then d.leapdays else 0
   let t := (Cal.toOrdinal year month day + days) * 86400 + d.seconds
-  if t < 86400 ∨ t ≥ (Cal.maxOrdinal + 1) * 86400 then .error .OverflowError else
-  match d.weekday with
+  if inRange t then .ok t else .error .OverflowError
+
+/-- step 4: the weekday jump -/
+def weekdayStep (t : Int) : Option (Int × Int) → Py.R Int
   | none => .ok t
   | some (wd, n) =>
-    let nth := if n != 0 then n else 1
-    let cur := Cal.weekdayOfOrd (t / 86400)
-    let jump := if nth > 0 then (Py.iabs nth - 1) * 7 + (7 - cur + wd) % 7
-                else -((Py.iabs nth - 1) * 7 + (cur - wd) % 7)
-    let t' := t + jump * 86400
-    if t' < 86400 ∨ t' ≥ (Cal.maxOrdinal + 1) * 86400 then .error .OverflowError else .ok t'
+    let t' := t + weekdayJump (Cal.weekdayOfOrd (t / 86400)) wd n * 86400
+    if inRange t' then .ok t' else .error .OverflowError
+
+/-- `datetime(year,1,1) + relativedelta(month, day, weekday, leapdays, seconds…)` as
+    seconds since ordinal 0, mirroring `relativedelta.__add__` -/
+def applyDelta (year : Int) (d : Delta) : Py.R Int :=
+  match baseInstant year d with
+  | .error e => .error e
+  | .ok t => weekdayStep t d.weekday
 
 /-- `(dston, dstoff)` on the standard-time side, seconds since ordinal 0 -/
 def transitions (z : Zone) (year : Int) : Py.R (Option (Int × Int)) :=
